@@ -259,7 +259,7 @@ def load_known():
 
 def finish(ctx, exit_infra=None):
     """Write evidence, replay files; print verdict lines; return exit code."""
-    known = [k for k in load_known().get("findings", []) if k.get("property") == ctx.pid]
+    known = [k for k in load_known().get("findings", []) if k.get("property") == ctx.pid or ctx.pid in k.get("properties", [])]
     viol, knownhits = [], {}
     for f in ctx.failures:
         hit = None
